@@ -99,6 +99,10 @@ func Tokens() []Tok {
 		run("CC0~", 0xB0, 0x0A, 0x40),
 		run("After0~", 0xD0, 0x23),
 		run("Bend0~", 0xE0, 0x7F, 0x3F),
+		// events that are not the end of the track but end in its three bytes
+		meta("SeqSpecificEOTTail", 0x7F, []byte{0x00, 0xFF, 0x2F, 0x00}, 0),
+		meta("TextEOTTail", 0x01, []byte{'a', 0xFF, 0x2F, 0x00}, 0),
+		sysex("EscapeEOTTail", 0xF7, []byte{0xFF, 0x2F, 0x00}, 0),
 		ch("Bend15", 0xEF, 0x01, 0x02), // highest channel status
 		run("Bend15~", 0xEF, 0x03, 0x04),
 	}
@@ -172,6 +176,41 @@ func ManyEvents() (bodies [][]byte, evs [][]refsmf.Event) {
 		ev = append(ev, refsmf.Event{Delta: 0, Msg: refsmf.EOT})
 		bodies = append(bodies, body)
 		evs = append(evs, ev)
+	}
+	return
+}
+
+// EOTEncodings returns files of two and three tracks in which one track's
+// end-of-track event carries its zero length in a non-minimal form (FF 2F 80
+// 00, FF 2F 80 80 00 ...): legal variable-length quantities, same content.
+func EOTEncodings() (files [][]byte, exps []*refsmf.File, names []string) {
+	ev := func(k int) ([]byte, []refsmf.Event) {
+		return []byte{0x00, 0x90 + byte(k), 0x3C, 0x40, 0x05, 0x80 + byte(k), 0x3C, 0x00},
+			[]refsmf.Event{{Delta: 0, Msg: []byte{0x90 + byte(k), 0x3C, 0x40}}, {Delta: 5, Msg: []byte{0x80 + byte(k), 0x3C, 0x00}}}
+	}
+	for _, ntr := range []int{1, 2, 3} {
+		for which := 0; which < ntr; which++ {
+			for pad := 1; pad <= 3; pad++ {
+				f := refsmf.Header(1, uint16(ntr), 96)
+				exp := &refsmf.File{Format: 1, NTrks: uint16(ntr), Division: 96}
+				for t := 0; t < ntr; t++ {
+					b, e := ev(t)
+					b = append(b, 0x02, 0xFF, 0x2F)
+					if t == which {
+						for i := 0; i < pad; i++ {
+							b = append(b, 0x80)
+						}
+					}
+					b = append(b, 0x00)
+					e = append(e, refsmf.Event{Delta: 2, Msg: refsmf.EOT})
+					f = append(f, refsmf.Chunk("MTrk", b)...)
+					exp.Tracks = append(exp.Tracks, e)
+				}
+				files = append(files, f)
+				exps = append(exps, exp)
+				names = append(names, fmt.Sprintf("%dtracks/track%d/eot-length-%d-bytes", ntr, which, pad+1))
+			}
+		}
 	}
 	return
 }
